@@ -9,7 +9,7 @@ ATTR = {
             'PlacesAndWindows', 'Reach', 'ShiftStart', 'DepartureNotBeforeEarliest', 'DepartureNotAfterLatest', 'ShiftEnd',
             'Capacity', 'Skills', 'LimitDistance', 'LimitDuration', 'LimitTourSize', 'Groups', 'Compat', 'OrderHard',
             'RelationVehicle', 'RelationOrder', 'ConditionalDistinct', 'Panic'],
-    'C05': ['CacheFresh', 'FitnessFunctionOfTours', 'ScheduleArrivals', 'ScheduleDepartures', 'ReportedLoad', 'StopDistances',
+    'C05': ['CacheFresh', 'FitnessFunctionOfTours', 'VectorsFreshAfterEveryInsertion', 'TourScalarsFreshAfterEveryInsertion', 'AggregatesFreshAfterEveryInsertion', 'ScheduleArrivals', 'ScheduleDepartures', 'ReportedLoad', 'StopDistances',
             'TourStat'],
 }
 
@@ -103,7 +103,8 @@ def run(pid, tier):
         events.append({'id': eid, 'pix': pix[cid], 'op': ev['op'], 'kind': ev['kind'], 'state': ev['state'], 'sol': ps,
                        'parentBefore': ev['parentBefore'], 'parentAfter': ev['parentAfter'],
                        'cache': {'d1': ev['cache']['d1'], 'd2': ev['cache']['d2'], 'fix': ev['cache']['fix']},
-                       'fitEqual': ev['fitEqual'], 'orderEqual': ev['orderEqual']})
+                       'fitEqual': ev['fitEqual'], 'orderEqual': ev['orderEqual'],
+                       'ins': {k: ev.get('ins', {}).get(k, 0) for k in ('n', 'routeStale', 'scalarStale', 'solStale', 'skipped')}})
         raw[eid] = ev
         ops_seen[op_class(ev['op'])] += 1
 
@@ -143,6 +144,7 @@ def run(pid, tier):
         e = copy.deepcopy(clean[0]); e['id'] = 'canary:registry'; e['state']['available'] = e['state']['available'] + [e['state']['routes'][0]['vehicle'] + '#' + str(e['state']['routes'][0]['shift'])]; muts.append((e, 'RegistrySync'))
         e = copy.deepcopy(clean[0]); e['id'] = 'canary:parent'; e['parentAfter'] = 'x' + e['parentAfter']; muts.append((e, 'ParentUnchanged'))
         e = copy.deepcopy(clean[0]); e['id'] = 'canary:cache'; e['cache']['d2'] = 'x' + e['cache']['d2']; e['cache']['fix'] = True; muts.append((e, 'CacheFresh'))
+        e = copy.deepcopy(clean[0]); e['id'] = 'canary:ins'; e['ins']['routeStale'] = 1; muts.append((e, 'VectorsFreshAfterEveryInsertion'))
         e = copy.deepcopy(clean[0]); e['id'] = 'canary:arrival'
         if e['sol']['tours'] and len(e['sol']['tours'][0]['stops']) > 1:
             e['sol']['tours'][0]['stops'][1]['arr'] += 1; muts.append((e, 'ScheduleArrivals'))
@@ -204,7 +206,7 @@ def run(pid, tier):
         ev = raw[rid]
         c = cases_by_id[ev['case']]
         key = '%s/%s/%s' % (pid, name, qualifier(name, c, ev))
-        verdict.add(key, 'event %s violates %s%s' % (rid, name, (' diff=' + str(ev['cache']['diff'])[:160]) if name == 'CacheFresh' else ''),
+        verdict.add(key, 'event %s violates %s%s' % (rid, name, (' diff=' + str(ev['cache']['diff'])[:160]) if name == 'CacheFresh' else (' ' + str(ev.get('ins', {}))[:300]) if name.endswith('AfterEveryInsertion') else ''),
                     {'case': c, 'event': ev, 'invariant': name})
     # model level: exhaustive check of the fine-grained SolutionCtx model
     mc = model_check(tier)
@@ -225,7 +227,7 @@ def run(pid, tier):
                      'ignored': sample['state']['ignored'], 'unassigned': sample['state']['unassigned'], 'cache': sample['cache']}],
         'operator_counts': dict(ops_seen), 'histories': len(cases), 'steps_per_history': steps,
         'events_after_operator': changed, 'local_operator_without_move': sum(1 for e in events if e.get('only_parent')),
-        'non_fixpoint_recompute_not_judged_for_cache': nonfix, 'panics': len(panics), 'invalid_cases': invalid,
+        'non_fixpoint_recompute_not_judged_for_cache': nonfix, 'single_insertions_observed_hook_H2': sum(e['ins']['n'] for e in judged), 'single_insertions_not_judged_recompute_edits_solution': sum(e['ins']['skipped'] for e in judged), 'panics': len(panics), 'invalid_cases': invalid,
         'unsupported_projection': dict(unsupported), 'invariants_judged': sorted(mine),
         'invariants_failed_of_other_properties': dict(others), 'tainted_events_not_judged': tainted, 'histories_broken_midway': len(broken_from), 'binding_canaries_rejected': canary_ok,
         'model': mc, 'known_finding_hits': {k: len(v) for k, v in verdict.known_hits.items()},
